@@ -773,10 +773,15 @@ func c13L5(r *Run, rep *core.Report) {
 	// the bucket lock) no evicted callback, no visitor and no other function value except the user's compute function
 	// is called, and no further operation of the underlying map is issued (it would lock a bucket again).
 	n := 0
+	names, extra := cacheMethodList(r)
 	for twin := 0; twin < 2; twin++ {
-		for _, name := range cachePublic {
+		for _, name := range names {
 			mp := methodPaths(r, twin, name)
-			if undecidedPaths(r, rep, "C13.L0", mp) {
+			if extra[name] {
+				if !cleanPaths(mp) {
+					continue
+				}
+			} else if undecidedPaths(r, rep, "C13.L0", mp) {
 				continue
 			}
 			rep.Fn(fn(mp.Fn))
